@@ -40,6 +40,9 @@ garbles the echo, prints error text or unexpected output, answers with an HTTP e
 a malformed body, reports a non-zero exit status, or does not confirm the save. -/
 def badFull (b : Backend) (ρ : Role) (r : Reply) : Bool :=
   !promptArrives r || (!Backend.isConsole b && (!r.status200 || (!r.parses && bodyMatters b ρ)))
+  -- NSX: a list request answered by a well-formed document that is not the list of the device
+  -- (no `results`): in place of the configuration, like error text on a console
+  || (b == .nsx && ρ == .read && !r.flags.contains .cfgGenuine)
   || (Backend.isConsole b && (!r.echoOk || r.out == .text))
   || (ρ == .probe && promptArrives r && !r.flags.contains .status0)
   || (ρ == .save && b != .linux && promptArrives r && !saveContent r)
@@ -47,8 +50,9 @@ def badFull (b : Backend) (ρ : Role) (r : Reply) : Bool :=
 /-- The part of `badFull` for which the property is proved: everything except error text,
 unexpected output or a garbled echo in the reply to a command whose output the code does not
 inspect (login, set-up and show commands, configuration retrieval, save output besides the
-confirmation), and except a connection close that net/http hides by replaying the request.
-The complement is the class of findings F-C09a / F-C09b / F-C09c. -/
+confirmation), except a connection close that net/http hides by replaying the request, and except
+an NSX list document without `results`.
+The complement is the class of findings F-C09a / F-C09b / F-C09c / F-C09d. -/
 def badChecked (b : Backend) (ρ : Role) (r : Reply) : Bool :=
   (!promptArrives r && !replayed b ρ r)
   || (!Backend.isConsole b && promptArrives r && (!r.status200 || (!r.parses && bodyMatters b ρ)))
